@@ -13,7 +13,7 @@ from .. import env
 
 ID = "C13"
 LEVEL = "exploration"
-BUDGET = {"quick": 640, "thorough": 25000}
+BUDGET = {"quick": 640, "thorough": 60000}
 SHARDS = {"quick": 8, "thorough": 16}
 RULE = (
     "case = one HDF5 save -> load round trip of: (samples) class x namespace x width x optional-field subset x flat/nested x "
